@@ -223,6 +223,30 @@ def cases(tier):
                             vv = _node_values(G, cyc, _lcg(gi + 78), st, en)
                             if vv is not None:
                                 yield dict(_mk(model, G, vv, "int", None, "startend", starts=st, ends=en), kind="oracle")
+    # curated (seeded round 3): error scale 0 with k=None (the width must be taken over the elements that still count); one-sided additional
+    # starts / ends for the min-models; node LENGTHS with a length-coverage constraint given as edges; original edges that carry an attribute
+    # named like the node attribute
+    D = nx.DiGraph([("s", "a"), ("s", "b"), ("a", "t"), ("b", "t")])
+    for model in ("kMinPathError", "kMinPathErrorCycles"):
+        yield _mk(model, D, {"s": 2, "a": 2, "b": 3, "t": 2}, "int", None, "scale", scale=[["b", 0]])
+        yield _mk(model, D, {"s": 4, "a": 2, "b": 2, "t": 4}, "int", None, "scale", scale=[["a", 0], ["s", 0.5]])
+    Pth = nx.DiGraph([("s", "a"), ("a", "t")])
+    for model in ("MinFlowDecomp",):            # (the cyclic twin rejects additional starts/ends in node mode altogether: open finding of C11)
+        yield dict(_mk(model, Pth, {"s": 5, "a": 5, "t": 3}, "int", None, "startend", starts=[], ends=["a"]), kind="oracle")
+        yield dict(_mk(model, Pth, {"s": 3, "a": 5, "t": 5}, "int", None, "startend", starts=["a"], ends=[]), kind="oracle")
+    for model in ("kLeastAbsErrors", "kMinPathError", "MinErrorFlow", "kPathCover", "MinPathCover", "kLeastAbsErrorsCycles"):
+        k = 1 if model in HAS_K else None
+        yield _mk(model, Pth, {"s": 5, "a": 5, "t": 3}, "int", k, "startend", starts=[], ends=["a"])
+        yield _mk(model, Pth, {"s": 3, "a": 5, "t": 5}, "int", k, "startend", starts=["a"], ends=[])
+    L = nx.DiGraph([("a", "b"), ("b", "c"), ("a", "d"), ("d", "c")])
+    for model, k in (("kLeastAbsErrors", 1), ("kMinPathError", 1), ("kFlowDecomp", 1), ("MinFlowDecomp", None)):
+        for cov in (0.8, 0.95):
+            yield _mk(model, L, {"a": 5, "b": 0, "c": 5, "d": 5}, "int", k, "length", cons=[[["a", "b"], ["b", "c"]]], constype="edges", cov=cov,
+                      lengths=[["a", 10], ["b", 1], ["c", 1], ["d", 1]])
+    E3 = nx.DiGraph([("s", "a"), ("a", "t")])
+    for model in ("MinFlowDecomp", "kLeastAbsErrors", "kMinPathError", "kFlowDecompCycles", "MinErrorFlow"):
+        k = 1 if model in HAS_K else None
+        yield _mk(model, E3, {"s": 10, "a": 10, "t": 10}, "int", k, "edgeattr", edgeattr=3)
     # curated: D9 witnesses (DESIGN section 4): node-mode kFlowDecomp on a 2-node graph; single node
     yield dict(kind="rel", model="kFlowDecomp", feature="plain", wt="int", k=1, nodes=[["x", 3], ["y", 3]], edges=[["x", "y"]], cons=[], constype="nodes", cov=1.0,
                ignore=[], scale=[], starts=[], ends=[], missing=[])
@@ -257,8 +281,12 @@ def node_graph(case, give_missing=None):
             continue
         if x is not None:
             G.nodes[v]["flow"] = x if v not in case["missing"] else give_missing
+        if case.get("lengths"):
+            G.nodes[v]["length"] = dict(case["lengths"])[v]
     for u, v in case["edges"]:
         G.add_edge(u, v)
+        if case.get("edgeattr") is not None:
+            G[u][v]["flow"] = case["edgeattr"]            # the original edges carry an attribute of the same name: it must not count (every original edge is ignored)
     return G
 
 
@@ -276,6 +304,13 @@ def expanded(case):
     for u, v in case["edges"]:
         X.add_edge(u + OUT, v + IN)
         ignore.append((u + OUT, v + IN))
+        if case.get("edgeattr") is not None:
+            X[u + OUT][v + IN]["flow"] = case["edgeattr"]
+        if case.get("lengths"):
+            X[u + OUT][v + IN]["length"] = 0              # the copy of an original edge has length 0
+    if case.get("lengths"):
+        for v, ln in case["lengths"]:
+            X[v + IN][v + OUT]["length"] = ln
     for v in case["ignore"]:
         if (v + IN, v + OUT) not in ignore:
             ignore.append((v + IN, v + OUT))
@@ -318,6 +353,9 @@ def run_node(case, give_missing=None, extra_ignore=()):
         cons = [list(c) for c in case["cons"]] if case["constype"] == "nodes" else [[tuple(e) for e in c] for c in case["cons"]]
         kw["subset_constraints" if cyc else "subpath_constraints"] = cons
         kw["subset_constraints_coverage" if cyc else "subpath_constraints_coverage"] = case["cov"]
+        if case.get("lengths"):
+            del kw["subpath_constraints_coverage"]
+            kw.update(subpath_constraints_coverage_length=case["cov"], length_attr="length")
     ign = list(case["ignore"]) + list(extra_ignore)
     if ign:
         kw["elements_to_ignore"] = ign
@@ -339,6 +377,9 @@ def run_edge(case):
     if cons:
         kw["subset_constraints" if cyc else "subpath_constraints"] = cons
         kw["subset_constraints_coverage" if cyc else "subpath_constraints_coverage"] = case["cov"]
+        if case.get("lengths"):
+            del kw["subpath_constraints_coverage"]
+            kw.update(subpath_constraints_coverage_length=case["cov"], length_attr="length")
     kw["elements_to_ignore"] = ignore
     if case["scale"]:
         kw["error_scaling"] = {(v + IN, v + OUT): s for v, s in case["scale"]}
@@ -381,10 +422,12 @@ def check_rel(case):
     model, feat = case["model"], case["feature"]
     cyc = cyclic(model)
     wt = int if case["wt"] == "int" else float
-    inst = "%s(%s) k=%s wt=%s nodes=%s edges=%s cons=%s/%s cov=%s ignore=%s scale=%s starts=%s ends=%s missing=%s" % (
-        model, feat, case["k"], case["wt"], case["nodes"], case["edges"], case["constype"], case["cons"], case["cov"], case["ignore"], case["scale"], case["starts"], case["ends"], case["missing"])
+    inst = "%s(%s) k=%s wt=%s nodes=%s edges=%s cons=%s/%s cov=%s ignore=%s scale=%s starts=%s ends=%s missing=%s%s%s" % (
+        model, feat, case["k"], case["wt"], case["nodes"], case["edges"], case["constype"], case["cons"], case["cov"], case["ignore"], case["scale"], case["starts"], case["ends"], case["missing"],
+        (" lengths=%s (cov = length coverage)" % case["lengths"]) if case.get("lengths") else "", (" edge attribute flow=%s" % case["edgeattr"]) if case.get("edgeattr") is not None else "")
     tag = {"plain": "", "missing": " with a node lacking the attribute", "ignore": " with an ignored node", "scale": " with node error scaling",
-           "constraint": " with node-level constraints", "startend": " with additional starts/ends"}[feat]
+           "constraint": " with node-level constraints", "startend": " with additional starts/ends",
+           "length": " with node lengths and a length-coverage constraint", "edgeattr": " when the original edges carry an attribute named like the node attribute"}[feat]
     rn = run_node(case)
     re_ = run_edge(case)
     if "error" in rn and "error" in re_ and rn["exc"] == "ValueError" and re_["exc"] == "ValueError":
